@@ -58,7 +58,11 @@ func FuzzNode(seed int64, steps int, idMul uint64) *Cluster {
 	if len(cs.Voters) == 0 {
 		cs.Voters = []uint64{me}
 	}
-	if rng.Intn(4) == 0 { // joint
+	soleIncoming := rng.Intn(10) == 0
+	if soleIncoming { // the node is the only incoming voter (a group shrinking to one member, often still joint)
+		cs.Voters, cs.Learners = []uint64{me}, nil
+	}
+	if rng.Intn(4) == 0 || (soleIncoming && rng.Intn(3) != 0) { // joint
 		for _, id := range ids {
 			if rng.Intn(2) == 0 && !containsID(cs.Learners, id) {
 				cs.VotersOutgoing = append(cs.VotersOutgoing, id)
@@ -366,9 +370,9 @@ func FuzzNode(seed int64, steps int, idMul uint64) *Cluster {
 			} else {
 				n.Propose([]byte(fmt.Sprintf("p%d", step)))
 			}
-		case r < 68:
+		case r < 69:
 			n.ReadIndex([]byte(fmt.Sprintf("r%d", rng.Intn(5))))
-		case r < 70:
+		case r < 70 && rng.Intn(2) == 0:
 			n.TransferLeader(ids[rng.Intn(5)])
 		case r < 72:
 			n.ReportUnreachable(ids[rng.Intn(5)])
